@@ -181,4 +181,21 @@ CLAIMS = {
        'Eight runtime panics found while modelling were repaired (F-C20-3..10); two deliberate panic(err) sites that the repository tests '
        'expect are recorded as known findings (F-C20-1, F-C20-2).',
   technique='Coq theorems (no runtime panic of a GoSlice-style parser model for all texts and all tables passing tables_ok) + tables regenerated from source + differential check of the parsed configuration + exhaustive run of the finite input family'),
+ 'C03': dict(
+  text='Strict Gallina semantics of a PAN-OS vsys candidate configuration and of the XML-API commands drc emits (set = create / merge, edit = '
+       'replace, delete, move before; references must exist, referenced objects cannot be deleted, names are unique) and a list-level model of '
+       'diffRules\' position logic. Theorems: for every device rulebase and every edit script in the normal form that the Myers library '
+       'guarantees, the planned commands (deletions at once, every inserted rule appended with set and moved before the next surviving rule) '
+       'are all accepted and produce exactly the order the script describes; set / move / delete of a rule act on the candidate configuration '
+       'as in that list model and every other command leaves the rule sequence unchanged; the oracle is equality of the rulebases with '
+       'addresses, groups, services and service-groups expanded to their content. Tie and search: for generated vsys pairs the commands '
+       'printed by the built drc are parsed, compared with the plan of the model for the reconstructed edit script, executed by the device '
+       'semantics inside Coq and judged by the oracle; the rendered result is compared a second time by drc (no change), and an empty script '
+       'is accepted only if the device was already equivalent.',
+  design_ref='DESIGN.md section 4, C03',
+  note='Partial: the proof covers the rule order and the device/oracle properties; member-list equalisation, group reuse and object transfer '
+       'are decided by executing the real commands on the model (differential check with the oracle), not by a theorem. Trusted: Coq kernel; '
+       'the command parser and XML rendering of vlib/panos.py; the assumed XML-API semantics (set merges, edit replaces) are from the PAN-OS '
+       'documentation. F-C03-1 fixed (466f163); F-C03-2 (service-group members are only added) is a known finding.',
+  technique='Coq theorems (rule-order convergence of the diffRules plan for all scripts in normal form; device frame; oracle soundness) + differential execution of the emitted commands on the Coq device semantics'),
 }
